@@ -45,7 +45,7 @@ def bbans_for(row: dict, rng: random.Random, k: int) -> list[str]:
             out.append(b)
     while len(out) < k:
         out.append(gen.bban_for(row, rng))
-    return out
+    return out + [b for b in gen.echo_bbans(row, rng) if b not in out]
 
 
 def run(ctx: Ctx) -> dict:
